@@ -15,11 +15,11 @@ def run(c):
     if c.replay:
         harness(c, 1, replay_ops=c.replay.get("replay_ops") or [])
     else:
-        harness(c, 120000 if c.thorough else 20000, enum=300000)
+        harness(c, 200000 if c.thorough else 60000, enum=600000 if c.thorough else 30000)
 
     def search():
         c.seed += 1000
-        harness(c, 150000, enum=100000)
+        harness(c, 200000, enum=200000)
 
     c.assumptions += [
         "strings.EqualFold / strings.ToLower / x/net/publicsuffix are parameters of the model; the laws tying them to the hand-written "
@@ -34,7 +34,7 @@ def run(c):
         "record / junk TXT / empty / multiple / invalid / NXDOMAIN / SERVFAIL / timeout / other error) x (p, sp in none|quarantine|reject|absent; adkim, aspf in r|s|absent; "
         "pct absent|100|partial) x (0-7 DKIM results + 0-2 SPF results, values and identifier domains drawn from a fixed set of 34 names with hand-written "
         "organizational domains: exact, other spelling, subdomain, sibling, public suffix, other registrant, unrelated); quick: random sample through the real "
-        "Verifier and through the real pipeline; thorough: plus a strided sweep of the property's product; every pair of names through the real isAligned; "
+        "Verifier and through the real pipeline; plus a strided sweep (offset by the seed) of the property's product (2.4e6 points: 6 author domains x 8 lookup outcomes x p x sp x adkim x aspf x 7 SPF values x 5-8 SPF identities x 1-2 DKIM results over value x identifier), quick 1/80, thorough 1/4; every pair of names through the real isAligned; "
         "distinct = distinct op lines",
         explanation="theorem model = specification for all result lists, headers, resolvers and primitive implementations satisfying the stated laws; "
         "model tied to internal/dmarc and the pipeline by differential runs; property evaluated on the real executions by an independent oracle",
